@@ -3,7 +3,7 @@ import os, sys
 from vlib import core, cases, libs
 
 LEVEL = "proof"
-PROPS = ["MV/Props/C11.lean"]
+PROPS = ["MV/Props/C11.lean", "MV/Props/C11b.lean"]
 ASSUMPTIONS = [
     "theorems are about MV/Model/Sweep2.lean (exact integer coordinates): fill rules on all integers, EmitBoundary = coboundary of the fill indicator for every "
     "status column, PolySet2 canonical form / permutation, reversal and operand-order invariance, MergeVerticals1D coverage, closed walks for every tie-breaking rule; "
@@ -13,6 +13,15 @@ ASSUMPTIONS = [
     "NOT proved: that the floating-point sweep keeps the status in geometric order (Bentley-Ottmann completeness under rounding, block rule), MergeVerts / incidence "
     "pre-split, PushSimpleLoops simplicity; these are covered only by the oracles on the real outputs: pixel semantics on lattice programs (exact), long-double "
     "winding-number oracle at points farther than 10*max(eps, tolerance) from every input and output edge, segment-crossing test on the output",
+    "C11b (arrangement pass): MV/Model/Arrange2.lean transliterates SweepPass (PendingAdd, Classify, GradientLess, EmitBoundary, SplitAt, OnInterior, TestPair, ProcessEvent, "
+    "Run, both modes) over order-only coordinates with the three floating-point kernels (YAtX comparison, gradient cross-product sign, constructed crossing point) as oracle "
+    "arguments; proved for every oracle, status and event: adjacency_complete (every new neighbour pair, at the bottom, middle or top of the status, leaves the event point "
+    "together or is passed to TestPair), status_sorted_invariant, events_processed_in_order (while every constructed crossing lies after its event: the model's `ahead` flag, "
+    "recomputed per replayed run), no_missed_crossing_partial (combinatorial half). Tie: the MANIFOLD_VERIF hook onSweep2 records every pass of the REAL SweepPass "
+    "(status before/after, lo hi k, Sides, TestPair and SplitAt calls); the model replays it with the kernels' answers taken from the record (ranks for coordinates) and must "
+    "reproduce every status, every TestPair call, events_/pending_ sizes and out_ exactly. Decided per run, not proved: that GradientLess is a strict weak order on each "
+    "re-inserted block (so that std::stable_sort = the model's stable insertion sort), that crossings are ahead of the sweep; NOT carried: the geometric half of Bentley-Ottmann "
+    "(crossing edges become adjacent before their crossing) and the numerical quality of Intersect/Interpolate",
     "the pinned API has no FillRule enum: construction reads Positive (constructors, Warp) or EvenOdd (CrossSection::EvenOdd); NonZero/Negative do not exist; "
     "the internal Intersect rule (w > 1) is exercised through boolean2.h ApplyFillRule",
 ]
@@ -33,6 +42,47 @@ def build_harness(var):
     libs.build(var)
     return core.compile_harness("c11_cross", [os.path.join(ROOT, "harness", "c11_cross.cpp")], libs.cxx_flags(var), libs=libs.link_flags(var),
                                 out_name="c11_cross_" + var)
+
+
+def build_arrange(var):
+    libs.build(var)
+    return core.compile_harness("c11b_arrange", [os.path.join(ROOT, "harness", "c11b_arrange.cpp")], libs.cxx_flags(var), libs=libs.link_flags(var),
+                                out_name="c11b_arrange_" + var)
+
+
+def first_diff_event(c):
+    """the first event record on which the model's replay and the recorded run of the real SweepPass differ"""
+    ea, ma = c["exp"].split(" # "), c.get("model", "").split(" # ")
+    for i, (x, y) in enumerate(zip(ea, ma)):
+        if x != y:
+            return {"record_index": i, "what": "header (ahead drained nEvents)" if i == 0 else "event %d of the pass (format: p : lo hi k : Sides : status after insertion : TestPair i j : tested seq pairs : status at exit : |events_| |pending_|)" % i,
+                    "implementation": core.clip(x, 1500), "model": core.clip(y, 1500)}
+    return {"record_index": min(len(ea), len(ma)), "what": "number of records differs", "implementation": len(ea), "model": len(ma)}
+
+
+def arrange_search(ctx, c):
+    """model != implementation on a sweep pass: look for an input on which the real arrangement pass violates the property
+    (output pieces cross / ray-crossing number changed), first among more cases of the same generators, then end to end."""
+    ev = first_diff_event(c)
+    try:
+        exe = build_arrange("ser")
+        cs, _ = cases.run_case_harness(ctx, exe, [4000, 200], timeout=3000)
+    except core.BuildBroken:
+        cs = []
+    bad = [x for x in cs if not x["prop"].startswith("ok")]
+    if bad:
+        b = min(bad, key=lambda x: len(x["req"]))
+        return {"broken_correspondence": "SweepPass event/status machine vs MV.Arr2", "diverging_case": c["tag"], "diverging_event": ev, "seed": ctx.seed,
+                "failing_case": b["tag"], "oracle": b["prop"], "request": b["req"], "implementation": b["exp"],
+                "rerun": "VERIF_SEED=%d build/h/c11b_arrange_ser 4000 200 | grep -A3 '%s '" % (ctx.seed, b["tag"].split()[0])}
+    rp = oracle_search(ctx, "SweepPass event/status machine differs from MV.Arr2 at " + c["tag"])
+    if rp:
+        import json
+        r = json.load(open(rp))
+        r["diverging_case"], r["diverging_event"] = c["tag"], ev
+        return r
+    core.write_replay(ctx.pid, "correspondence-arrange-event", {"case": c["tag"], "diverging_event": ev, "request": c["req"]})
+    return None
 
 
 def oracle_search(ctx, broken):
@@ -83,6 +133,7 @@ def run(ctx):
         raise
     cov["checker_cmd"] = "python3 tools/extract_windrule.py && cd lean && lake build MV mvdriver && lake env lean <#print axioms for every theorem of MV/Props/C11.lean>"
     cov["trusted_base"] = core.TRUSTED_BASE + ["tools/extract_windrule.py (C++ expression -> Lean term printer)",
+                                              "harness/c11b_arrange.cpp (builds the oracle tables by calling the real YAtX / la::cross on the recorded arguments; rank renumbering)",
                                               "the long-double winding-number and segment-crossing oracles in harness/c11_cross.cpp"]
     cov["generated_isInside"] = [l.strip() for l in gen.split("\n") if l.strip().startswith("| .")]
     quick = ctx.tier == "quick"
@@ -90,6 +141,34 @@ def run(ctx):
     total = {"evaluations": 0, "model_vs_impl_compared": 0, "distinct_nontrivial": 0, "kinds": {}, "mismatches": 0, "property_failures": 0}
     stats_all = {}
     samples = []
+    samples2 = []
+    # C11b: the event/status machine of the real SweepPass (hook onSweep2) replayed by MV.Arr2
+    for var in (["ser"] if quick else ["ser", "par"]):
+        exe = build_arrange(var)
+        cs, stats = cases.run_case_harness(ctx, exe, [400, 40] if quick else [6000, 400], timeout=3000)
+        for c in cs:
+            c["tag"] = var + ":" + c["tag"]
+        # first the replay alone (verdicts of the property oracles set aside), so that a divergence is reported with its event and
+        # arrange_search attaches a failing input of the property; then the same cases again with their oracle verdicts
+        cases.correspond(ctx, [dict(c, prop="ok") for c in cs], "real SweepPass event/status machine (hook onSweep2) vs MV.Arr2 replay (" + var + ")", search=arrange_search,
+                         kind_of=lambda c: "arr2-" + (c["tag"].split()[1] if len(c["tag"].split()) > 1 else "case"))
+        c2 = cases.correspond(ctx, cs, "real SweepPass::Run/ProcessEvent/TestPair/SplitAt/PendingAdd (hook onSweep2) vs MV.Arr2 replay (" + var + ")",
+                              search=arrange_search, kind_of=lambda c: "arr2-" + (c["tag"].split()[1] if len(c["tag"].split()) > 1 else "case"))
+        for k in ("evaluations", "model_vs_impl_compared", "distinct_nontrivial", "mismatches", "property_failures"):
+            total[k] += c2[k]
+        total["driver_wall_s"] = total.get("driver_wall_s", 0) + c2["driver_wall_s"]
+        for k, v in c2["kinds"].items():
+            total["kinds"][k] = total["kinds"].get(k, 0) + v
+        for k, v in stats.items():
+            stats_all["arr2_" + var + "_" + k] = int(v)
+        need = ["tip_top", "tip_bottom", "tip_mid", "ins_bottom", "ins_top", "crossings", "oninterior", "forced", "vertical", "windpasses", "libpasses"]
+        missing = [k for k in need if int(stats.get(k, 0)) == 0]
+        if missing:
+            raise core.BuildBroken("the C11b harness produced no event of kind(s) %s" % missing)
+        pick = {}
+        for c in cs:
+            pick.setdefault(c["tag"].split()[1], c)
+        samples2 += [{"case": c["tag"], "request": core.clip(c["req"], 160), "answer": core.clip(c["exp"], 100)} for c in list(pick.values())[:4]]
     for var in variants:
         exe = build_harness(var)
         if var == "ser":
@@ -131,6 +210,10 @@ def run(ctx):
                    "rectangles in [0,8]^2 with reuse of whole sub-programs; distinct = distinct request lines. contours: stars {n/k}, bow-ties, overlapping discs of both orientations, "
                    "collinear-grid rectangles with copies, needles through a near-common point (perturbation 1e-6..1e-15), scribbles, nested rings, near-identical copies "
                    "(rotation 1e-8..1e-15), hashes of thin bars with touching corners, mixtures; scales 1e-3..1e3; Positive / EvenOdd / w>1 construction, binary Booleans, "
-                   "BatchBoolean of three, non-affine Warp, Booleans of sheared/rotated/mirrored sections; >1024-edge operands for the BVH broad phase")
-    cov["samples"] = samples
+                   "BatchBoolean of three, non-affine Warp, Booleans of sheared/rotated/mirrored sections; >1024-edge operands for the BVH broad phase. "
+                   "arr2 (C11b): whole passes of the real SweepPass replayed event by event: random lattice segments (shared end points, verticals, collinear overlaps), lattice "
+                   "rectangles, rails with a tip (two edges ending, none starting) in the bottom / a middle / the top gap whose neighbours cross beyond the tip, lines through a "
+                   "near-common point (1e-3..1e-15), random segments, stars, fans between two rails; driven through CollectArrangement, a hand-seeded SweepPass (shuffled, reversed, "
+                   "cancelling Seed calls), CollectThenMeasure (winding pass) and the library's own passes under CrossSection Booleans; distinct = distinct request lines")
+    cov["samples"] = samples + samples2
     return cov
